@@ -29,6 +29,8 @@ func runOne(spec string, sch *drivers.Schedule) []drivers.TraceLine {
 	switch spec {
 	case "core":
 		return drivers.NewCoreRun(sch).Run()
+	case "health":
+		return drivers.NewHealthRun(sch).Run()
 	}
 	fmt.Fprintln(os.Stderr, "unknown spec", spec)
 	os.Exit(2)
